@@ -223,14 +223,14 @@ def run_session(ck, beh, rnd, full_sync=False):
                     adapter.did_open(s, c, d, "s.f90")
                 fo = s.workspace.get(path)
             else:
-                k = 1 if full_sync else rnd.choice([1, 1, 2, 3])
+                k = rnd.choice([1, 1, 2, 3])
                 group = []
                 while i < len(steps) and len(group) < k and steps[i][1]["edit"]["k"] not in ("save", "reopen", "opendirty"):
                     group.append(steps[i])
                     i += 1
                 if full_sync:
-                    last = group[-1][1]
-                    changes = [{"text": render(last["lines"], last["eols"])}]
+                    # full synchronisation: every element is the whole new text, applied in order (the last one stays)
+                    changes = [{"text": render(g[1]["lines"], g[1]["eols"])} for g in group]
                 else:
                     changes = [lsp_change(g[1]["edit"]) for g in group]
                 adapter.notify(s, c, "textDocument/didChange",
@@ -244,7 +244,8 @@ def run_session(ck, beh, rnd, full_sync=False):
                     tags |= edit_tags(g[1]["edit"])
                 if full_sync and kind not in ("save", "reopen", "opendirty"):
                     last = group[-1][1]
-                    tags = {"action:full"} | ({"text:endsInBreak", "text:multiline"} if last["lines"][-1] == [] and last["eols"] else set())
+                    tags = {"action:full"} | ({"text:endsInBreak", "text:multiline"} if last["lines"][-1] == [] and last["eols"] else set()) \
+                        | ({"changes:several"} if len(group) > 1 else set())
                 tags |= describe_diff(exp, got) | {"binding:didChange"}
                 ck.violation(tags, {"kind": "session", "initial": render(st0["lines"], st0["eols"]),
                                     "changes": changes, "expected": exp, "observed": got,
